@@ -184,7 +184,6 @@ Variable hash : bytes -> bytes.
 Variable valid_name : bytes -> bool.
 Variable valid_data : Z -> bytes -> bool.
 Variable str_ok : bytes -> bool.
-Hypothesis cheat : forall P : Prop, P.
 Hypothesis hash_inj : forall a b, hash a = hash b -> a = b.
 
 Notation nexec := (nexec hash valid_name valid_data str_ok).
@@ -489,6 +488,12 @@ Proof.
   rewrite Hc, N.div_add_l by lia. rewrite N.div_small by lia. lia.
 Qed.
 
+Lemma elem_of_spec_recs s tk nk tb d :
+  d ∈ spec_recs s tk nk tb <-> exists e, e ∈ spec_ents (records s) tk nk tb /\ d = r_data (snd e).
+Proof.
+  unfold spec_recs. rewrite elem_of_list_fmap. split; intros [e [H1 H2]]; exists e; auto.
+Qed.
+
 (** ** AddRecord *)
 Lemma add_record_halt c s name typ data s' v ns :
   rec_inv s -> nexec c s (AddRecord name typ data) = Halt (s', v, ns) ->
@@ -526,10 +531,891 @@ Proof.
   split; [reflexivity|]. split; [exact Htb|]. split; [lia|]. split; [exact Hk|].
   unfold maxRecordID, T_CNAME in *.
   split; [lia|]. split; [lia|]. split.
-  - intros Hin. unfold spec_recs in Hin. apply elem_of_list_fmap in Hin as [e [Hd He]].
+  - intros Hin. apply elem_of_spec_recs in Hin as [e [He Hd]].
     apply negb_true_iff, not_true_iff_false in E. apply E. clear E.
     apply existsb_exists. exists e. split; [apply elem_of_list_In; exact He|].
- apply cheat.
- - apply cheat.
-Time Qed.
+    destruct (elem_of_spec_ents_wf _ _ _ _ _ Hinv He) as [(Hn & Ht & _) _].
+    apply hash_inj in Hn. rewrite !andb_true_iff. split; [split|].
+    + apply bytes_eqb_eq. exact Hn.
+    + apply Z.eqb_eq. congruence.
+    + apply bytes_eqb_eq. symmetry. exact Hd.
+  - split; [exact Eold|]. split; [exact Href|]. split; [|split; reflexivity].
+    rewrite set_records_twice, records_set_records.
+    replace (Z.of_nat (N.to_nat k)) with (Z.of_N k) by lia. reflexivity.
+Qed.
+
+(** ** SetRecord *)
+Lemma set_record_halt c s name typ id data s' v ns :
+  rec_inv s -> nexec c s (SetRecord name typ id data) = Halt (s', v, ns) ->
+  exists tok tb ib k old new,
+    check_record hash valid_name valid_data c s name typ data = Halt tok /\
+    typ = Z.of_N tb /\ (tb = 1 \/ tb = 5 \/ tb = 16 \/ tb = 28)%N /\ id = Z.of_N ib /\
+    count_ok (records s) (hash tok) (hash name) tb k /\ (ib < k)%N /\
+    (forall j, j <> N.to_nat ib -> spec_recs s (hash tok) (hash name) tb !! j <> Some data) /\
+    records s !! soa_key tok = Some old /\ soa_refreshed c old new /\
+    s' = set_records s (<[soa_key tok := new]>
+           (<[(hash tok, hash name, tb, ib) := mkR name typ data id]> (records s))) /\
+    v = VNull /\ ns = [].
+Proof.
+  intros Hinv H. unfold NNS.nexec in H. cbv zeta in H.
+  destruct (check_record hash valid_name valid_data c s name typ data) as [tok|] eqn:Ecr; [|discriminate H].
+  cbn [obind] in H.
+  destruct (to_byte typ) as [tb|] eqn:Etb; [|discriminate H]. cbn [obind] in H.
+  destruct (to_byte id) as [ib|] eqn:Eib; [|discriminate H]. cbn [obind] in H.
+  destruct (records s !! (hash tok, hash name, tb, ib)) as [r0|] eqn:Er0; cbv beta iota in H; [|discriminate H].
+  rewrite (find_by_type_spec _ _ _ _ Hinv) in H. inv1 H.
+  destruct (check_record_halt _ _ _ _ _ _ Ecr) as (Etok & Htyp & _).
+  assert (Htb : typ = Z.of_N tb) by (apply to_byte_nonneg; [assumption|lia]).
+  destruct (count_ok_ex s (hash tok) (hash name) tb Hinv) as [k Hk].
+  assert (Hik : (ib < k)%N) by (apply Hk; eauto).
+  assert (Hk16 : (k <= 16)%N) by apply Hk.
+  assert (Hid : id = Z.of_N ib) by (apply to_byte_small; [assumption|lia]).
+  unfold store_record in H.
+  destruct (update_soa_serial hash str_ok c _ tok) as [s2|] eqn:Eu; [|discriminate H]. cbn [obind] in H.
+  injection H as <- <- <-.
+  apply update_soa_serial_halt in Eu as (old & new & Eold & _ & Href & ->).
+  rewrite records_set_records in Eold.
+  assert (Hne : soa_key tok <> (hash tok, hash name, tb, ib)).
+  { unfold soa_key. intros Heq. injection Heq as _ Heq _. lia. }
+  rewrite lookup_insert_ne in Eold by (intros Heq; apply Hne; symmetry; exact Heq).
+  exists tok, tb, ib, k, old, new.
+  split; [reflexivity|]. split; [exact Htb|]. split; [lia|]. split; [exact Hid|]. split; [exact Hk|].
+  split; [exact Hik|]. split; [|split; [exact Eold|]; split; [exact Href|]; split; [|split; reflexivity];
+    rewrite set_records_twice, records_set_records; reflexivity].
+  intros j Hj Hd. destruct (spec_recs_lookup s _ _ _ _ j Hk) as [_ Hl]. rewrite Hl in Hd.
+  destruct (records s !! (hash tok, hash name, tb, N.of_nat j)) as [r|] eqn:Er; [|discriminate Hd].
+  simpl in Hd. injection Hd as Hd.
+  apply negb_true_iff, not_true_iff_false in E. apply E. clear E.
+  apply existsb_exists. exists ((tb * 256 + N.of_nat j)%N, r). split.
+  { apply elem_of_list_In, elem_of_spec_ents. exists (N.of_nat j). simpl.
+    assert (N.of_nat j < k)%N by (apply Hk; eauto). split; [lia|]. split; [exact Er|reflexivity]. }
+  destruct Hinv as [Hwf _]. destruct (Hwf _ _ _ _ _ Er) as (Hn & Ht & Hi & _). apply hash_inj in Hn.
+  cbn [snd]. rewrite !andb_true_iff. split; [split; [split|]|].
+  - apply negb_true_iff, Z.eqb_neq. lia.
+  - apply bytes_eqb_eq. exact Hn.
+  - apply Z.eqb_eq. congruence.
+  - apply bytes_eqb_eq. exact Hd.
+Qed.
+
+(** ** DeleteRecords *)
+Lemma fold_delete_cases (tk nk : bytes) (tb : N) (es : list ent) (m : gmap rkey rstate) (key : bytes * bytes * N * N) :
+  fold_left (fun m (e : ent) => delete (tk, nk, tb, (fst e mod 256)%N) m) es m !! key = m !! key \/
+  fold_left (fun m (e : ent) => delete (tk, nk, tb, (fst e mod 256)%N) m) es m !! key = None.
+Proof.
+  revert m. induction es as [|e es IH]; intros m; [left; reflexivity|].
+  simpl. destruct (IH (delete (tk, nk, tb, (fst e mod 256)%N) m)) as [IH'|IH']; [|right; exact IH'].
+  rewrite IH'. destruct (decide (key = (tk, nk, tb, (fst e mod 256)%N))) as [->|Hne].
+  - right. apply lookup_delete.
+  - left. apply lookup_delete_ne. congruence.
+Qed.
+
+Lemma fold_delete_other (tk nk : bytes) (tb : N) (es : list ent) (m : gmap rkey rstate) (key : bytes * bytes * N * N) :
+  (forall i, key <> (tk, nk, tb, i)) ->
+  fold_left (fun m (e : ent) => delete (tk, nk, tb, (fst e mod 256)%N) m) es m !! key = m !! key.
+Proof.
+  intros Hk. revert m. induction es as [|e es IH]; intros m; [reflexivity|].
+  simpl. rewrite IH. apply lookup_delete_ne. intros Heq. apply (Hk (fst e mod 256)%N). congruence.
+Qed.
+
+Lemma fold_delete_hit (tk nk : bytes) (tb : N) (es : list ent) (m : gmap rkey rstate) (e : ent) :
+  e ∈ es ->
+  fold_left (fun m (e : ent) => delete (tk, nk, tb, (fst e mod 256)%N) m) es m !! (tk, nk, tb, (fst e mod 256)%N) = None.
+Proof.
+  intros He. revert m. induction es as [|e' es IH]; intros m; [inversion He|].
+  simpl. apply elem_of_cons in He as [->|He]; [|apply IH; exact He].
+  destruct (fold_delete_cases tk nk tb es (delete (tk, nk, tb, (fst e' mod 256)%N) m) (tk, nk, tb, (fst e' mod 256)%N)) as [Hc|Hc];
+    [|exact Hc].
+  rewrite Hc. apply lookup_delete.
+Qed.
+
+Lemma to_byte_6 z : to_byte z = Halt 6%N -> z = 6.
+Proof. intros H. apply to_byte_small in H; lia. Qed.
+
+(** without any invariant: the store after the deletion loop *)
+Definition deleted (m : gmap rkey rstate) (tk nk : bytes) (tb : N) : gmap rkey rstate :=
+  fold_left (fun m (e : ent) => delete (tk, nk, tb, (fst e mod 256)%N) m) (find_by_type m tk nk tb) m.
+
+Lemma deleted_other m tk nk tb tk' nk' tb' i :
+  (tk', nk', tb') <> (tk, nk, tb) -> deleted m tk nk tb !! (tk', nk', tb', i) = m !! (tk', nk', tb', i).
+Proof. intros Hne. unfold deleted. apply fold_delete_other. intros i' Heq. apply Hne. congruence. Qed.
+
+Lemma delete_records_halt0 c s name typ s' v ns :
+  nexec c s (DeleteRecords name typ) = Halt (s', v, ns) ->
+  exists tok tb ns0 old new,
+    typ <> T_SOA /\ tok_of c s name = Halt tok /\ length (split_dot tok) <> 1%nat /\
+    get_frag_ns hash c s tok (split_dot tok) = Halt ns0 /\ may_admin c ns0 = true /\
+    to_byte typ = Halt tb /\ tb <> 6%N /\
+    records s !! soa_key tok = Some old /\ soa_refreshed c old new /\
+    s' = set_records s (<[soa_key tok := new]> (deleted (records s) (hash tok) (hash name) tb)) /\
+    v = VNull /\ ns = [].
+Proof.
+  intros H. unfold NNS.nexec in H. cbv zeta in H.
+  inv1 H. inv1 H. inv1 H. inv1 H. inv1 H. inv1 H.
+  rename x into tok. rename x2 into tb.
+  fold (deleted (records s) (hash tok) (hash name) tb) in H.
+  destruct (update_soa_serial hash str_ok c (set_records s (deleted (records s) (hash tok) (hash name) tb)) tok) as [s2|] eqn:Eu;
+    [|discriminate H].
+  cbn [obind] in H. injection H as <- <- <-.
+  apply update_soa_serial_halt in Eu as (old & new & Eold & _ & Href & ->).
+  rewrite records_set_records in Eold.
+  assert (Htb6 : tb <> 6%N).
+  { intros ->. match goal with Hb : to_byte typ = Halt 6%N |- _ => apply to_byte_6 in Hb end.
+    unfold T_SOA in *. lia. }
+  assert (Eold' : records s !! soa_key tok = Some old).
+  { rewrite <- Eold. symmetry. unfold soa_key. apply deleted_other. intros Heq. apply Htb6. congruence. }
+  exists tok, tb. eexists _, old, new.
+  split; [unfold T_SOA in *; lia|]. split; [reflexivity|]. split; [lia|].
+  split; [first [eassumption|reflexivity]|]. split; [eapply check_admin_halt; eassumption|].
+  split; [reflexivity|]. split; [exact Htb6|].
+  split; [exact Eold'|]. split; [exact Href|]. split; [|split; reflexivity].
+  rewrite set_records_twice. reflexivity.
+Qed.
+
+Lemma deleted_none m tk nk tb i : minv m -> deleted m tk nk tb !! (tk, nk, tb, i) = None.
+Proof.
+  intros Hinv. unfold deleted. rewrite (find_by_type_spec _ _ _ _ Hinv).
+  destruct (proj2 Hinv tk nk tb) as [k Hk].
+  destruct (m !! (tk, nk, tb, i)) as [r|] eqn:Er.
+  - assert (Hi : (i < k)%N) by (apply Hk; eauto). assert (Hk16 : (k <= 16)%N) by apply Hk.
+    assert (He : ((tb * 256 + i)%N, r) ∈ spec_ents m tk nk tb).
+    { apply elem_of_spec_ents. exists i. simpl. split; [lia|]. split; [exact Er|reflexivity]. }
+    assert (Em : ((tb * 256 + i) mod 256 = i)%N).
+    { rewrite N.add_comm, N.mod_add by lia. apply N.mod_small. lia. }
+    rewrite <- Em at 1. apply (fold_delete_hit _ _ _ _ _ ((tb * 256 + i)%N, r) He).
+  - destruct (fold_delete_cases tk nk tb (spec_ents m tk nk tb) m (tk, nk, tb, i)) as [Hc|Hc]; [|exact Hc].
+    rewrite Hc. exact Er.
+Qed.
+
+Lemma delete_records_halt c s name typ s' v ns :
+  rec_inv s -> nexec c s (DeleteRecords name typ) = Halt (s', v, ns) ->
+  exists tok tb ns0 m1 old new,
+    typ <> T_SOA /\ tok_of c s name = Halt tok /\ length (split_dot tok) <> 1%nat /\
+    get_frag_ns hash c s tok (split_dot tok) = Halt ns0 /\ may_admin c ns0 = true /\
+    to_byte typ = Halt tb /\ tb <> 6%N /\
+    (forall i, m1 !! (hash tok, hash name, tb, i) = None) /\
+    (forall tk nk tb' i, (tk, nk, tb') <> (hash tok, hash name, tb) ->
+       m1 !! (tk, nk, tb', i) = records s !! (tk, nk, tb', i)) /\
+    records s !! soa_key tok = Some old /\ soa_refreshed c old new /\
+    s' = set_records s (<[soa_key tok := new]> m1) /\ v = VNull /\ ns = [].
+Proof.
+  intros Hinv H. apply delete_records_halt0 in H as (tok & tb & ns0 & old & new & H1 & H2 & H3 & H4 & H5 & H6 & H7 & H8 & H9 & H10 & H11 & H12).
+  exists tok, tb, ns0, (deleted (records s) (hash tok) (hash name) tb), old, new.
+  split; [exact H1|]. split; [exact H2|]. split; [exact H3|]. split; [exact H4|]. split; [exact H5|].
+  split; [exact H6|]. split; [exact H7|]. split; [intros i; apply deleted_none; exact Hinv|].
+  split; [intros tk nk tb' i Hne; apply deleted_other; exact Hne|].
+  split; [exact H8|]. split; [exact H9|]. split; [exact H10|]. split; [exact H11|exact H12].
+Qed.
+
+(** * 5. Preservation of the invariant *)
+Lemma minv_soa_insert m tok name data :
+  minv m -> minv (<[(hash tok, hash name, 6%N, 0%N) := mkR name T_SOA data 0]> m).
+Proof.
+  intros Hinv. destruct (proj2 Hinv (hash tok) (hash name) 6%N) as [k Hk].
+  apply (minv_insert _ _ _ _ _ k); [assumption|assumption|lia|lia|reflexivity|].
+  split; [reflexivity|]. split; [reflexivity|]. split; [reflexivity|]. right; right; left; reflexivity.
+Qed.
+
+Lemma minv_soa_refresh c m tok old new :
+  minv m -> m !! soa_key tok = Some old -> soa_refreshed c old new -> minv (<[soa_key tok := new]> m).
+Proof.
+  intros Hinv Ho (f0 & f1 & f2 & f3 & f4 & f5 & f6 & _ & ->).
+  destruct (proj2 Hinv (hash tok) (hash tok) 6%N) as [k Hk]. unfold soa_key.
+  apply (minv_insert _ _ _ _ _ k); [assumption|assumption|lia|lia|reflexivity|].
+  exact (proj1 Hinv _ _ _ _ _ Ho).
+Qed.
+
+Lemma nexec_inv c s o s' v ns : rec_inv s -> nexec c s o = Halt (s', v, ns) -> rec_inv s'.
+Proof.
+  intros Hinv H. unfold rec_inv.
+  destruct (nexec_records_cases _ _ _ _ _ _ H) as [E|[(tok & name & data & E)|[(name & typ & data & ->)|[(name & typ & id & data & ->)|(name & typ & ->)]]]].
+  - rewrite E. exact Hinv.
+  - rewrite E. apply minv_soa_insert. exact Hinv.
+  - apply add_record_halt in H as (tok & tb & k & old & new & _ & Ht & Htb & Hk & Hk16 & Hk5 & _ & Ho & Hr & -> & _); [|exact Hinv].
+    rewrite records_set_records. apply (minv_soa_refresh c _ _ old); [| |exact Hr].
+    + apply (minv_insert _ _ _ _ _ k); [exact Hinv|exact Hk|lia|lia|lia|].
+      split; [reflexivity|]. split; [exact Ht|]. split; [reflexivity|]. unfold tyb. lia.
+    + rewrite lookup_insert_ne; [exact Ho|]. unfold soa_key. intros Heq. injection Heq as _ Heq _. lia.
+  - apply set_record_halt in H as (tok & tb & ib & k & old & new & _ & Ht & Htb & Hid & Hk & Hik & _ & Ho & Hr & -> & _); [|exact Hinv].
+    rewrite records_set_records. apply (minv_soa_refresh c _ _ old); [| |exact Hr].
+    + assert (Hk16 : (k <= 16)%N) by apply Hk.
+      assert (Hk5 : (tb = 5 \/ tb = 6)%N -> (k <= 1)%N) by apply Hk.
+      apply (minv_insert _ _ _ _ _ k); [exact Hinv|exact Hk|lia|lia|lia|].
+      split; [reflexivity|]. split; [exact Ht|]. split; [exact Hid|]. unfold tyb. lia.
+    + rewrite lookup_insert_ne; [exact Ho|]. unfold soa_key. intros Heq. injection Heq as _ Heq _. lia.
+  - apply delete_records_halt in H as (tok & tb & ns0 & m1 & old & new & _ & _ & _ & _ & _ & _ & Htb6 & Hnone & Hsame & Ho & Hr & -> & _); [|exact Hinv].
+    rewrite records_set_records. apply (minv_soa_refresh c _ _ old); [| |exact Hr].
+    + apply (minv_delete_type (records s) m1 (hash tok) (hash name) tb); assumption.
+    + rewrite <- Ho. unfold soa_key. apply Hsame. intros Heq. apply Htb6. congruence.
+Qed.
+
+Lemma nstep_inv s co : rec_inv s -> rec_inv (fst (fst (nstep s co))).
+Proof.
+  intros Hinv. destruct (nstep_cases hash valid_name valid_data str_ok s co) as [(s' & r & ns & He & ->)|[_ ->]].
+  - simpl. eapply nexec_inv; eassumption.
+  - exact Hinv.
+Qed.
+
+Lemma nrun_from_inv ops s : rec_inv s -> rec_inv (nrun_from s ops).
+Proof.
+  revert s. induction ops as [|co ops IH]; intros s Hinv; [exact Hinv|].
+  unfold NNS.nrun_from. simpl. apply IH. apply nstep_inv. exact Hinv.
+Qed.
+
+Lemma nrun_inv ops : rec_inv (nrun ops).
+Proof. apply nrun_from_inv. exact minv_empty. Qed.
+
+(** * 6. The specification lists and the step semantics on them *)
+Lemma omap_ext_in {A B} (f g : A -> option B) (l : list A) :
+  (forall x, x ∈ l -> f x = g x) -> omap f l = omap g l.
+Proof.
+  induction l as [|x l IH]; intros H; [reflexivity|].
+  csimpl. rewrite (H x) by left. rewrite IH; [reflexivity|]. intros y Hy. apply H. right. exact Hy.
+Qed.
+
+(** a list depends only on the lookups of its own keys *)
+Lemma spec_recs_ext s s' tk nk tb :
+  (forall i, records s' !! (tk, nk, tb, i) = records s !! (tk, nk, tb, i)) ->
+  spec_recs s' tk nk tb = spec_recs s tk nk tb.
+Proof.
+  intros H. unfold spec_recs, spec_ents. f_equal. apply omap_ext_in. intros j _. rewrite H. reflexivity.
+Qed.
+
+Lemma spec_recs_nil s tk nk tb :
+  (forall i, records s !! (tk, nk, tb, i) = None) -> spec_recs s tk nk tb = [].
+Proof.
+  intros H. unfold spec_recs, spec_ents. rewrite omap_none; [reflexivity|]. intros j _. rewrite H. reflexivity.
+Qed.
+
+(** shape of the lists: contiguous ids, at most 16, at most one CNAME / SOA,
+    only the five record types *)
+Lemma spec_recs_shape s tk nk tb :
+  rec_inv s ->
+  (forall j, spec_recs s tk nk tb !! j = r_data <$> records s !! (tk, nk, tb, N.of_nat j)) /\
+  (forall i, is_Some (records s !! (tk, nk, tb, i)) <-> (N.to_nat i < length (spec_recs s tk nk tb))%nat) /\
+  (length (spec_recs s tk nk tb) <= 16)%nat /\
+  ((tb = 5 \/ tb = 6)%N -> (length (spec_recs s tk nk tb) <= 1)%nat) /\
+  (spec_recs s tk nk tb <> [] -> tyb tb).
+Proof.
+  intros Hinv. destruct (count_ok_ex s tk nk tb Hinv) as [k Hk].
+  assert (Hlen : length (spec_recs s tk nk tb) = N.to_nat k) by apply (spec_recs_lookup s tk nk tb k 0%nat Hk).
+  destruct Hk as (Hk & Hk16 & Hk1).
+  split; [intros j; apply (spec_recs_lookup s tk nk tb k j); split; [exact Hk|split; assumption]|].
+  split; [intros i; rewrite Hk, Hlen; lia|]. split; [lia|]. split; [intros Ht; specialize (Hk1 Ht); lia|].
+  intros Hne. assert (Hpos : (0 < k)%N).
+  { destruct (spec_recs s tk nk tb); [contradiction|]. simpl in Hlen. lia. }
+  apply Hk in Hpos. apply (minv_small _ _ _ _ _ Hinv Hpos).
+Qed.
+
+Lemma NoDup_short {A} (l : list A) : (length l <= 1)%nat -> NoDup l.
+Proof.
+  destruct l as [|x [|y l]]; simpl; intros H; [constructor| |lia].
+  apply NoDup_singleton.
+Qed.
+
+(** AddRecord appends to exactly one list *)
+Lemma add_record_spec c s name typ data s' v ns :
+  rec_inv s -> nexec c s (AddRecord name typ data) = Halt (s', v, ns) ->
+  exists tok tb,
+    tok_of c s name = Halt tok /\ typ = Z.of_N tb /\ (tb = 1 \/ tb = 5 \/ tb = 16 \/ tb = 28)%N /\
+    data ∉ spec_recs s (hash tok) (hash name) tb /\
+    (length (spec_recs s (hash tok) (hash name) tb) < 16)%nat /\
+    (tb = 5%N -> spec_recs s (hash tok) (hash name) tb = []) /\
+    spec_recs s' (hash tok) (hash name) tb = spec_recs s (hash tok) (hash name) tb ++ [data] /\
+    (forall tk nk tb', (tk, nk, tb') <> (hash tok, hash name, tb) -> (tk, nk, tb') <> (hash tok, hash tok, 6%N) ->
+       spec_recs s' tk nk tb' = spec_recs s tk nk tb') /\
+    (forall tk nk tb' i, (tk, nk, tb') <> (hash tok, hash name, tb) -> (tk, nk, tb', i) <> soa_key tok ->
+       records s' !! (tk, nk, tb', i) = records s !! (tk, nk, tb', i)) /\
+    names s' = names s /\ roots s' = roots s /\ supply s' = supply s /\ balances s' = balances s /\
+    acctok s' = acctok s /\ price s' = price s /\ v = VNull /\ ns = [].
+Proof.
+  intros Hinv H. assert (Hinv' : rec_inv s') by (eapply nexec_inv; eassumption).
+  apply add_record_halt in H as (tok & tb & k & old & new & Hcr & Ht & Htb & Hk & Hk16 & Hk5 & Hnin & Ho & Hr & -> & -> & ->); [|exact Hinv].
+  apply check_record_halt in Hcr as (Etok & _).
+  destruct (spec_recs_lookup s _ _ _ _ 0%nat Hk) as [Hlen _].
+  assert (Hframe : forall tk nk tb' i, (tk, nk, tb', i) <> (hash tok, hash name, tb, k) -> (tk, nk, tb', i) <> soa_key tok ->
+     records (set_records s (<[soa_key tok := new]> (<[(hash tok, hash name, tb, k) := mkR name typ data (Z.of_N k)]> (records s))))
+       !! (tk, nk, tb', i) = records s !! (tk, nk, tb', i)).
+  { intros tk nk tb' i H1 H2. rewrite records_set_records.
+    rewrite lookup_insert_ne by (intros Heq; apply H2; symmetry; exact Heq).
+    rewrite lookup_insert_ne by (intros Heq; apply H1; symmetry; exact Heq). reflexivity. }
+  exists tok, tb. split; [exact Etok|]. split; [exact Ht|]. split; [exact Htb|]. split; [exact Hnin|].
+  split; [lia|]. split.
+  { intros H5. specialize (Hk5 H5). subst k. destruct (spec_recs s (hash tok) (hash name) tb); [reflexivity|discriminate Hlen]. }
+  split.
+  { apply list_eq. intros j.
+    destruct (count_ok_ex _ (hash tok) (hash name) tb Hinv') as [k' Hk'].
+    destruct (spec_recs_lookup _ _ _ _ _ j Hk') as [_ ->].
+    rewrite records_set_records.
+    rewrite lookup_insert_ne by (unfold soa_key; intros Heq; injection Heq as _ Heq _; lia).
+    destruct (decide (j = N.to_nat k)) as [->|Hne].
+    - rewrite N2Nat.id, lookup_insert. rewrite lookup_app_r by lia. rewrite Hlen, Nat.sub_diag. reflexivity.
+    - rewrite lookup_insert_ne by (intros Heq; injection Heq as Heq; lia).
+      destruct (spec_recs_lookup s _ _ _ _ j Hk) as [_ Hl].
+      destruct (decide (j < N.to_nat k)%nat) as [Hlt|Hge].
+      + rewrite lookup_app_l by lia. symmetry. exact Hl.
+      + rewrite lookup_ge_None_2 by (rewrite app_length; simpl; lia).
+        destruct (records s !! (hash tok, hash name, tb, N.of_nat j)) as [r|] eqn:Er; [|reflexivity].
+        exfalso. assert (N.of_nat j < k)%N by (apply Hk; eauto). lia. }
+  split.
+  { intros tk nk tb' H1 H2. apply spec_recs_ext. intros i. apply Hframe.
+    - intros Heq. apply H1. congruence.
+    - unfold soa_key. intros Heq. apply H2. congruence. }
+  split.
+  { intros tk nk tb' i H1 H2. apply Hframe; [|exact H2]. intros Heq. apply H1. congruence. }
+  repeat (split; [reflexivity|]). reflexivity.
+Qed.
+
+(** SetRecord replaces one position of one list *)
+Lemma set_record_spec c s name typ id data s' v ns :
+  rec_inv s -> nexec c s (SetRecord name typ id data) = Halt (s', v, ns) ->
+  exists tok tb,
+    tok_of c s name = Halt tok /\ typ = Z.of_N tb /\ (tb = 1 \/ tb = 5 \/ tb = 16 \/ tb = 28)%N /\
+    0 <= id /\ (Z.to_nat id < length (spec_recs s (hash tok) (hash name) tb))%nat /\
+    (forall j, j <> Z.to_nat id -> spec_recs s (hash tok) (hash name) tb !! j <> Some data) /\
+    spec_recs s' (hash tok) (hash name) tb = <[Z.to_nat id := data]> (spec_recs s (hash tok) (hash name) tb) /\
+    (forall tk nk tb', (tk, nk, tb') <> (hash tok, hash name, tb) -> (tk, nk, tb') <> (hash tok, hash tok, 6%N) ->
+       spec_recs s' tk nk tb' = spec_recs s tk nk tb') /\
+    (forall tk nk tb' i, (tk, nk, tb', i) <> (hash tok, hash name, tb, Z.to_N id) -> (tk, nk, tb', i) <> soa_key tok ->
+       records s' !! (tk, nk, tb', i) = records s !! (tk, nk, tb', i)) /\
+    records s' !! (hash tok, hash name, tb, Z.to_N id) = Some (mkR name typ data id) /\
+    names s' = names s /\ roots s' = roots s /\ supply s' = supply s /\ balances s' = balances s /\
+    acctok s' = acctok s /\ price s' = price s /\ v = VNull /\ ns = [].
+Proof.
+  intros Hinv H. assert (Hinv' : rec_inv s') by (eapply nexec_inv; eassumption).
+  apply set_record_halt in H as (tok & tb & ib & k & old & new & Hcr & Ht & Htb & Hid & Hk & Hik & Hnd & Ho & Hr & -> & -> & ->); [|exact Hinv].
+  apply check_record_halt in Hcr as (Etok & _).
+  destruct (spec_recs_lookup s _ _ _ _ 0%nat Hk) as [Hlen _].
+  assert (Eid : Z.to_N id = ib) by lia. assert (Eid' : Z.to_nat id = N.to_nat ib) by lia.
+  rewrite Eid, Eid'.
+  assert (Hnes : soa_key tok <> (hash tok, hash name, tb, ib)).
+  { unfold soa_key; intros Heq; injection Heq as _ Heq _; lia. }
+  assert (Hframe : forall tk nk tb' i, (tk, nk, tb', i) <> (hash tok, hash name, tb, ib) -> (tk, nk, tb', i) <> soa_key tok ->
+     records (set_records s (<[soa_key tok := new]> (<[(hash tok, hash name, tb, ib) := mkR name typ data id]> (records s))))
+       !! (tk, nk, tb', i) = records s !! (tk, nk, tb', i)).
+  { intros tk nk tb' i H1 H2. rewrite records_set_records.
+    rewrite lookup_insert_ne by (intros Heq; apply H2; symmetry; exact Heq).
+    rewrite lookup_insert_ne by (intros Heq; apply H1; symmetry; exact Heq). reflexivity. }
+  exists tok, tb. split; [exact Etok|]. split; [exact Ht|]. split; [exact Htb|]. split; [lia|].
+  split; [lia|]. split; [exact Hnd|]. split.
+  { apply list_eq. intros j.
+    destruct (count_ok_ex _ (hash tok) (hash name) tb Hinv') as [k' Hk'].
+    destruct (spec_recs_lookup _ _ _ _ _ j Hk') as [_ ->].
+    rewrite records_set_records.
+    rewrite lookup_insert_ne by (unfold soa_key; intros Heq; injection Heq as _ Heq _; lia).
+    destruct (decide (j = N.to_nat ib)) as [->|Hne].
+    - rewrite N2Nat.id, lookup_insert. rewrite list_lookup_insert by lia. reflexivity.
+    - rewrite lookup_insert_ne by (intros Heq; injection Heq as Heq; lia).
+      rewrite list_lookup_insert_ne by lia.
+      destruct (spec_recs_lookup s _ _ _ _ j Hk) as [_ Hl]. symmetry. exact Hl. }
+  split.
+  { intros tk nk tb' H1 H2. apply spec_recs_ext. intros i. apply Hframe.
+    - intros Heq. apply H1. congruence.
+    - unfold soa_key. intros Heq. apply H2. congruence. }
+  split; [exact Hframe|]. split.
+  { rewrite records_set_records. rewrite lookup_insert_ne by exact Hnes. apply lookup_insert. }
+  repeat (split; [reflexivity|]). reflexivity.
+Qed.
+
+(** DeleteRecords empties exactly one list; nothing of type SOA disappears *)
+Lemma delete_records_spec c s name typ s' v ns :
+  rec_inv s -> nexec c s (DeleteRecords name typ) = Halt (s', v, ns) ->
+  exists tok tb,
+    tok_of c s name = Halt tok /\ to_byte typ = Halt tb /\ tb <> 6%N /\
+    spec_recs s' (hash tok) (hash name) tb = [] /\
+    (forall tk nk tb', (tk, nk, tb') <> (hash tok, hash name, tb) -> (tk, nk, tb') <> (hash tok, hash tok, 6%N) ->
+       spec_recs s' tk nk tb' = spec_recs s tk nk tb') /\
+    (forall i, records s' !! (hash tok, hash name, tb, i) = None) /\
+    (forall tk nk tb' i, (tk, nk, tb') <> (hash tok, hash name, tb) -> (tk, nk, tb', i) <> soa_key tok ->
+       records s' !! (tk, nk, tb', i) = records s !! (tk, nk, tb', i)) /\
+    is_Some (records s' !! soa_key tok) /\
+    names s' = names s /\ roots s' = roots s /\ supply s' = supply s /\ balances s' = balances s /\
+    acctok s' = acctok s /\ price s' = price s /\ v = VNull /\ ns = [].
+Proof.
+  intros Hinv H.
+  apply delete_records_halt in H as (tok & tb & ns0 & m1 & old & new & _ & Etok & _ & _ & _ & Etb & Htb6 & Hnone & Hsame & Ho & Hr & -> & -> & ->); [|exact Hinv].
+  assert (Hnone' : forall i, records (set_records s (<[soa_key tok := new]> m1)) !! (hash tok, hash name, tb, i) = None).
+  { intros i. rewrite records_set_records. rewrite lookup_insert_ne; [apply Hnone|].
+    unfold soa_key. intros Heq. apply Htb6. congruence. }
+  assert (Hframe : forall tk nk tb' i, (tk, nk, tb') <> (hash tok, hash name, tb) -> (tk, nk, tb', i) <> soa_key tok ->
+     records (set_records s (<[soa_key tok := new]> m1)) !! (tk, nk, tb', i) = records s !! (tk, nk, tb', i)).
+  { intros tk nk tb' i H1 H2. rewrite records_set_records.
+    rewrite lookup_insert_ne by (intros Heq; apply H2; symmetry; exact Heq). apply Hsame. exact H1. }
+  exists tok, tb. split; [exact Etok|]. split; [exact Etb|]. split; [exact Htb6|].
+  split; [apply spec_recs_nil; exact Hnone'|]. split.
+  { intros tk nk tb' H1 H2. apply spec_recs_ext. intros i. apply Hframe; [exact H1|].
+    unfold soa_key. intros Heq. apply H2. congruence. }
+  split; [exact Hnone'|]. split; [exact Hframe|]. split.
+  { rewrite records_set_records, lookup_insert. eauto. }
+  repeat (split; [reflexivity|]). reflexivity.
+Qed.
+
+(** for ALL states (no invariant): a halting DeleteRecords keeps every key of
+    type byte 6; [typ = 6] is refused and no other [typ] maps to byte 6 *)
+Lemma delete_never_soa c s name typ s' v ns :
+  nexec c s (DeleteRecords name typ) = Halt (s', v, ns) ->
+  typ <> 6 /\
+  exists tok, tok_of c s name = Halt tok /\
+    (forall tk nk i, is_Some (records s !! (tk, nk, 6%N, i)) -> is_Some (records s' !! (tk, nk, 6%N, i))) /\
+    (forall tk nk i, (tk, nk, 6%N, i) <> soa_key tok -> records s' !! (tk, nk, 6%N, i) = records s !! (tk, nk, 6%N, i)).
+Proof.
+  intros H.
+  apply delete_records_halt0 in H as (tok & tb & ns0 & old & new & Ht & Etok & _ & _ & _ & Etb & Htb6 & Ho & Hr & -> & _).
+  split; [exact Ht|]. exists tok. split; [exact Etok|].
+  assert (Hsame : forall tk nk i, deleted (records s) (hash tok) (hash name) tb !! (tk, nk, 6%N, i) = records s !! (tk, nk, 6%N, i)).
+  { intros tk nk i. apply deleted_other. intros Heq. apply Htb6. congruence. }
+  split.
+  - intros tk nk i Hs. rewrite records_set_records.
+    destruct (decide ((tk, nk, 6%N, i) = soa_key tok)) as [->|Hne]; [rewrite lookup_insert; eauto|].
+    rewrite lookup_insert_ne by (intros Heq; apply Hne; symmetry; exact Heq). rewrite Hsame. exact Hs.
+  - intros tk nk i Hne. rewrite records_set_records.
+    rewrite lookup_insert_ne by (intros Heq; apply Hne; symmetry; exact Heq). apply Hsame.
+Qed.
+
+Lemma delete_soa_faults c s name : nexec c s (DeleteRecords name T_SOA) = Fault.
+Proof. reflexivity. Qed.
+
+(** every successful record mutation refreshes the serial of the token's SOA *)
+Lemma mutation_soa_serial c s o s' v ns name :
+  rec_inv s -> nexec c s o = Halt (s', v, ns) ->
+  (exists typ data, o = AddRecord name typ data) \/ (exists typ id data, o = SetRecord name typ id data) \/
+  (exists typ, o = DeleteRecords name typ) ->
+  exists tok old new, tok_of c s name = Halt tok /\
+    records s !! soa_key tok = Some old /\ records s' !! soa_key tok = Some new /\ soa_refreshed c old new.
+Proof.
+  intros Hinv H [(typ & data & ->)|[(typ & id & data & ->)|(typ & ->)]].
+  - apply add_record_halt in H as (tok & tb & k & old & new & Hcr & _ & _ & _ & _ & _ & _ & Ho & Hr & -> & _); [|exact Hinv].
+    apply check_record_halt in Hcr as (Etok & _). exists tok, old, new.
+    split; [exact Etok|]. split; [exact Ho|]. split; [|exact Hr]. rewrite records_set_records. apply lookup_insert.
+  - apply set_record_halt in H as (tok & tb & ib & k & old & new & Hcr & _ & _ & _ & _ & _ & _ & Ho & Hr & -> & _); [|exact Hinv].
+    apply check_record_halt in Hcr as (Etok & _). exists tok, old, new.
+    split; [exact Etok|]. split; [exact Ho|]. split; [|exact Hr]. rewrite records_set_records. apply lookup_insert.
+  - apply delete_records_halt0 in H as (tok & tb & ns0 & old & new & _ & Etok & _ & _ & _ & _ & _ & Ho & Hr & -> & _).
+    exists tok, old, new.
+    split; [exact Etok|]. split; [exact Ho|]. split; [|exact Hr]. rewrite records_set_records. apply lookup_insert.
+Qed.
+
+(** * 7. The readers *)
+Definition blk (e : ent) : N := (fst e / 256)%N.
+
+Lemma elt_of_blk x y : (blk x < blk y)%N -> elt x y.
+Proof.
+  unfold blk, elt. intros H. destruct (N.lt_ge_cases (fst x) (fst y)) as [Hlt|Hge]; [exact Hlt|].
+  exfalso. assert (fst y / 256 <= fst x / 256)%N by (apply N.div_le_mono; [lia|exact Hge]). lia.
+Qed.
+
+Lemma spec_ents_blk m tk nk tb e : e ∈ spec_ents m tk nk tb -> blk e = tb.
+Proof.
+  intros He. apply elem_of_spec_ents in He as [i (Hi & _ & Hc)]. unfold blk. rewrite Hc.
+  rewrite N.div_add_l by lia. rewrite N.div_small by lia. lia.
+Qed.
+
+Lemma SSorted_app_blk (l1 l2 : list ent) t :
+  StronglySorted elt l1 -> StronglySorted elt l2 -> (forall e, e ∈ l1 -> blk e = t) ->
+  (forall e, e ∈ l2 -> (t < blk e)%N) -> StronglySorted elt (l1 ++ l2).
+Proof.
+  intros S1 S2 H1 H2. apply SSorted_app; [exact S1|exact S2|].
+  intros x y Hx Hy. apply elt_of_blk. rewrite (H1 x Hx). apply H2. exact Hy.
+Qed.
+
+(** all entries of (token, name): the five type blocks in ascending order *)
+Definition all_ents (m : gmap rkey rstate) (tk nk : bytes) : list ent :=
+  spec_ents m tk nk 1 ++ spec_ents m tk nk 5 ++ spec_ents m tk nk 6 ++ spec_ents m tk nk 16 ++ spec_ents m tk nk 28.
+
+Lemma rec_entries_spec m tk nk : minv m -> rec_entries m tk nk = all_ents m tk nk.
+Proof.
+  intros Hinv. apply (strict_sorted_unique elt); [exact elt_asym| | |].
+  - apply SSorted_rec_entries. exact Hinv.
+  - unfold all_ents.
+    apply (SSorted_app_blk _ _ 1%N); [apply SSorted_spec_ents| |apply spec_ents_blk|].
+    2:{ intros e. rewrite !elem_of_app. intros [He|[He|[He|He]]]; apply spec_ents_blk in He; lia. }
+    apply (SSorted_app_blk _ _ 5%N); [apply SSorted_spec_ents| |apply spec_ents_blk|].
+    2:{ intros e. rewrite !elem_of_app. intros [He|[He|He]]; apply spec_ents_blk in He; lia. }
+    apply (SSorted_app_blk _ _ 6%N); [apply SSorted_spec_ents| |apply spec_ents_blk|].
+    2:{ intros e. rewrite !elem_of_app. intros [He|He]; apply spec_ents_blk in He; lia. }
+    apply (SSorted_app_blk _ _ 16%N); [apply SSorted_spec_ents|apply SSorted_spec_ents|apply spec_ents_blk|].
+    intros e He. apply spec_ents_blk in He. lia.
+  - intros e. rewrite elem_of_rec_entries. unfold all_ents. rewrite !elem_of_app, !elem_of_spec_ents. split.
+    + intros [t [i [Hm Hc]]]. destruct (minv_small _ _ _ _ _ Hinv (ex_intro _ _ Hm)) as [Hi Ht].
+      destruct Ht as [->|[->|[->|[->| ->]]]]; [left|right; left|right; right; left|right; right; right; left|right; right; right; right];
+        exists i; auto.
+    + intros [He|[He|[He|[He|He]]]]; destruct He as [i (Hi & Hm & Hc)]; eauto.
+Qed.
+
+Lemma filter_all {A} (P : A -> Prop) `{!forall x, Decision (P x)} (l : list A) :
+  (forall x, x ∈ l -> P x) -> filter P l = l.
+Proof.
+  induction l as [|x l IH]; intros Hall; [reflexivity|].
+  rewrite filter_cons. destruct (decide (P x)) as [_|Hn]; [|exfalso; apply Hn, Hall; left].
+  f_equal. apply IH. intros y Hy. apply Hall. right. exact Hy.
+Qed.
+
+Lemma filter_none {A} (P : A -> Prop) `{!forall x, Decision (P x)} (l : list A) :
+  (forall x, x ∈ l -> ~ P x) -> filter P l = [].
+Proof.
+  induction l as [|x l IH]; intros Hall; [reflexivity|].
+  rewrite filter_cons. destruct (decide (P x)) as [Hp|_]; [exfalso; apply (Hall x); [left|exact Hp]|].
+  apply IH. intros y Hy. apply Hall. right. exact Hy.
+Qed.
+
+Lemma tyb_lt tb : tyb tb -> (tb < 128)%N.
+Proof. unfold tyb. lia. Qed.
+
+Lemma map_vbytes_data (l : list ent) :
+  map (fun e : ent => VBytes (r_data (snd e))) l = map VBytes ((fun e : ent => r_data (snd e)) <$> l).
+Proof. rewrite !map_fmap, <- list_fmap_compose. reflexivity. Qed.
+
+(** GetRecords returns the specification list *)
+Lemma get_records_spec c s name typ s' v ns :
+  rec_inv s -> nexec c s (GetRecords name typ) = Halt (s', v, ns) ->
+  exists tok tb nst,
+    length (split_dot name) <> 1%nat /\ tok_of c s name = Halt tok /\
+    get_frag_ns hash c s tok [] = Halt nst /\ to_byte typ = Halt tb /\
+    s' = s /\ ns = [] /\ v = VList (map VBytes (spec_recs s (hash tok) (hash name) tb)).
+Proof.
+  intros Hinv H. unfold NNS.nexec in H. cbv zeta in H.
+  inv1 H. inv1 H. inv1 H. inv1 H. injection H as <- <- <-.
+  rename x into tok. rename x1 into tb.
+  exists tok, tb. eexists. split; [lia|]. split; [reflexivity|]. split; [first [eassumption|reflexivity]|].
+  split; [reflexivity|]. split; [reflexivity|]. split; [reflexivity|]. f_equal.
+  rewrite (find_by_type_spec _ _ _ _ Hinv). rewrite filter_all.
+  - apply map_vbytes_data.
+  - intros e He. destruct (elem_of_spec_ents_wf _ _ _ _ _ Hinv He) as [(_ & Ht & _ & Hty) _].
+    apply Z.eqb_eq. rewrite Ht. symmetry. apply to_byte_small; [assumption|]. apply tyb_lt. exact Hty.
+Qed.
+
+(** the value of one entry, from the specification list *)
+Definition rec_vals (name : bytes) (tb : N) (l : list bytes) : list val :=
+  imap (fun j d => VList [VBytes name; VInt (Z.of_N tb); VBytes d; VInt (Z.of_nat j)]) l.
+
+Lemma ent_vals_spec s tk name tb :
+  rec_inv s ->
+  ent_val <$> spec_ents (records s) tk (hash name) tb = rec_vals name tb (spec_recs s tk (hash name) tb).
+Proof.
+  intros Hinv. destruct (count_ok_ex s tk (hash name) tb Hinv) as [k Hk].
+  apply list_eq. intros j. unfold rec_vals. rewrite list_lookup_fmap, list_lookup_imap.
+  destruct (spec_ents_lookup _ _ _ _ _ j Hk) as [_ L2].
+  destruct (spec_recs_lookup _ _ _ _ _ j Hk) as [_ L3]. rewrite L3.
+  etrans; [exact (f_equal (fmap ent_val) L2)|].
+  destruct (records s !! (tk, hash name, tb, N.of_nat j)) as [r|] eqn:Er; [|reflexivity].
+  simpl. destruct (proj1 Hinv _ _ _ _ _ Er) as (Hn & Ht & Hi & _). apply hash_inj in Hn.
+  unfold ent_val. simpl. rewrite Hn, Ht, Hi. replace (Z.of_N (N.of_nat j)) with (Z.of_nat j) by lia. reflexivity.
+Qed.
+
+Definition all_vals (s : nstate) (tk : bytes) (name : bytes) : list val :=
+  rec_vals name 1 (spec_recs s tk (hash name) 1) ++ rec_vals name 5 (spec_recs s tk (hash name) 5) ++
+  rec_vals name 6 (spec_recs s tk (hash name) 6) ++ rec_vals name 16 (spec_recs s tk (hash name) 16) ++
+  rec_vals name 28 (spec_recs s tk (hash name) 28).
+
+Lemma get_all_records_halt c s name frags es :
+  get_all_records hash valid_name c s name frags = Halt es ->
+  exists tok nst, tok_of c s name = Halt tok /\ get_frag_ns hash c s tok [] = Halt nst /\
+    es = rec_entries (records s) (hash tok) (hash name).
+Proof.
+  unfold get_all_records. intros H. inv1 H. inv1 H. injection H as <-.
+  eexists _, _. split; [reflexivity|]. split; [first [eassumption|reflexivity]|reflexivity].
+Qed.
+
+(** GetAllRecords = the five lists in ascending type order *)
+Lemma get_all_records_spec c s name s' v ns :
+  rec_inv s -> nexec c s (GetAllRecords name) = Halt (s', v, ns) ->
+  exists tok nst,
+    length (split_dot name) <> 1%nat /\ tok_of c s name = Halt tok /\
+    get_frag_ns hash c s tok [] = Halt nst /\
+    s' = s /\ ns = [] /\ v = VList (all_vals s (hash tok) name).
+Proof.
+  intros Hinv H. unfold NNS.nexec in H. cbv zeta in H.
+  inv1 H. inv1 H. injection H as <- <- <-.
+  match goal with E : get_all_records _ _ _ _ _ _ = Halt _ |- _ =>
+    apply get_all_records_halt in E as (tok & nst & Etok & Ens & ->) end.
+  exists tok, nst. split; [lia|]. split; [exact Etok|]. split; [exact Ens|].
+  split; [reflexivity|]. split; [reflexivity|]. f_equal.
+  rewrite (rec_entries_spec _ _ _ Hinv). unfold all_ents, all_vals. rewrite map_fmap, !fmap_app.
+  rewrite !(ent_vals_spec s (hash tok) name) by exact Hinv. reflexivity.
+Qed.
+
+(** * 8. Distinctness *)
+Definition distinct_inv (s : nstate) : Prop := forall tk nk tb, NoDup (spec_recs s tk nk tb).
+
+Lemma distinct_from_non_soa s :
+  rec_inv s -> (forall tk nk tb, tb <> 6%N -> NoDup (spec_recs s tk nk tb)) -> distinct_inv s.
+Proof.
+  intros Hinv H tk nk tb. destruct (decide (tb = 6%N)) as [->|Hne]; [|apply H; exact Hne].
+  apply NoDup_short. apply (spec_recs_shape s tk nk 6%N Hinv). right. reflexivity.
+Qed.
+
+Lemma NoDup_snoc {A} (l : list A) x : NoDup l -> x ∉ l -> NoDup (l ++ [x]).
+Proof.
+  intros Hl Hx. apply NoDup_app. split; [exact Hl|]. split; [|apply NoDup_singleton].
+  intros y Hy Hy'. apply elem_of_list_singleton in Hy'. subst y. contradiction.
+Qed.
+
+Lemma NoDup_insert_fresh {A} (l : list A) i x :
+  NoDup l -> (forall j, j <> i -> l !! j <> Some x) -> NoDup (<[i := x]> l).
+Proof.
+  intros Hl Hx. apply NoDup_alt. intros a b y Ha Hb.
+  destruct (decide (a = i)) as [->|Hai]; destruct (decide (b = i)) as [->|Hbi]; [reflexivity| | |].
+  - apply list_lookup_insert_Some in Ha as [(_ & -> & _)|[Hc _]]; [|contradiction].
+    rewrite list_lookup_insert_ne in Hb by congruence. exfalso. apply (Hx b); [exact Hbi|exact Hb].
+  - apply list_lookup_insert_Some in Hb as [(_ & -> & _)|[Hc _]]; [|contradiction].
+    rewrite list_lookup_insert_ne in Ha by congruence. exfalso. apply (Hx a); [exact Hai|exact Ha].
+  - rewrite list_lookup_insert_ne in Ha by congruence. rewrite list_lookup_insert_ne in Hb by congruence.
+    eapply NoDup_alt; eassumption.
+Qed.
+
+Lemma nexec_distinct c s o s' v ns :
+  rec_inv s -> distinct_inv s -> nexec c s o = Halt (s', v, ns) -> distinct_inv s'.
+Proof.
+  intros Hinv Hd H. assert (Hinv' : rec_inv s') by (eapply nexec_inv; eassumption).
+  apply distinct_from_non_soa; [exact Hinv'|]. intros tk nk tb Htb6.
+  destruct (nexec_records_cases _ _ _ _ _ _ H) as [E|[(tok & name & data & E)|[(name & typ & data & ->)|[(name & typ & id & data & ->)|(name & typ & ->)]]]].
+  - rewrite (spec_recs_ext s s'); [apply Hd|]. intros i. rewrite E. reflexivity.
+  - rewrite (spec_recs_ext s s'); [apply Hd|]. intros i. rewrite E.
+    apply lookup_insert_ne. intros Heq. apply Htb6. congruence.
+  - apply add_record_spec in H as (tok & tb0 & _ & _ & _ & Hnin & _ & _ & Happ & Hoth & _); [|exact Hinv].
+    destruct (decide ((tk, nk, tb) = (hash tok, hash name, tb0))) as [Heq|Hne].
+    + injection Heq as -> -> ->. rewrite Happ. apply NoDup_snoc; [apply Hd|exact Hnin].
+    + rewrite Hoth; [apply Hd|exact Hne|]. intros Heq. apply Htb6. congruence.
+  - apply set_record_spec in H as (tok & tb0 & _ & _ & _ & _ & _ & Hfresh & Hrep & Hoth & _); [|exact Hinv].
+    destruct (decide ((tk, nk, tb) = (hash tok, hash name, tb0))) as [Heq|Hne].
+    + injection Heq as -> -> ->. rewrite Hrep. apply NoDup_insert_fresh; [apply Hd|exact Hfresh].
+    + rewrite Hoth; [apply Hd|exact Hne|]. intros Heq. apply Htb6. congruence.
+  - apply delete_records_spec in H as (tok & tb0 & _ & _ & _ & Hnil & Hoth & _); [|exact Hinv].
+    destruct (decide ((tk, nk, tb) = (hash tok, hash name, tb0))) as [Heq|Hne].
+    + injection Heq as -> -> ->. rewrite Hnil. constructor.
+    + rewrite Hoth; [apply Hd|exact Hne|]. intros Heq. apply Htb6. congruence.
+Qed.
+
+Lemma distinct_init : distinct_inv ninit.
+Proof. intros tk nk tb. rewrite spec_recs_nil; [constructor|]. intros i. apply lookup_empty. Qed.
+
+Lemma nrun_from_distinct ops s : rec_inv s -> distinct_inv s -> distinct_inv (nrun_from s ops).
+Proof.
+  revert s. induction ops as [|co ops IH]; intros s Hinv Hd; [exact Hd|].
+  unfold NNS.nrun_from. simpl. apply IH; [apply nstep_inv; exact Hinv|].
+  destruct (nstep_cases hash valid_name valid_data str_ok s co) as [(s' & r & ns & He & ->)|[_ ->]].
+  - simpl. eapply nexec_distinct; eassumption.
+  - exact Hd.
+Qed.
+
+Lemma nrun_distinct ops : distinct_inv (nrun ops).
+Proof. apply nrun_from_distinct; [exact minv_empty|exact distinct_init]. Qed.
+
+(** * 9. Location: the token of a name *)
+Lemma head_filter_lookup {A} (P : A -> Prop) `{!forall x, Decision (P x)} (l : list A) :
+  match head (filter P l) with
+  | Some x => exists i, l !! i = Some x /\ P x /\ forall j y, (j < i)%nat -> l !! j = Some y -> ~ P y
+  | None => forall y, y ∈ l -> ~ P y
+  end.
+Proof.
+  induction l as [|x l IH]; [simpl; intros y Hy; inversion Hy|].
+  rewrite filter_cons. destruct (decide (P x)) as [Hp|Hn].
+  - simpl. exists 0%nat. split; [reflexivity|]. split; [exact Hp|]. intros j y Hj. lia.
+  - destruct (head (filter P l)) as [y|].
+    + destruct IH as [i (Hi & Hpy & Hlt)]. exists (S i). split; [exact Hi|]. split; [exact Hpy|].
+      intros [|j] z Hj Hz; [simpl in Hz; injection Hz as <-; exact Hn|]. simpl in Hz. apply (Hlt j); [lia|exact Hz].
+    + intros y Hy. apply elem_of_cons in Hy as [->|Hy]; [exact Hn|apply IH; exact Hy].
+Qed.
+
+(** the name made of the fragments from index [i] on *)
+Definition suffix_name (name : bytes) (i : nat) : bytes := join_dot (drop i (split_dot name)).
+
+(** [tokenIDFromName]: the longest live suffix that is not the TLD, else the
+    name itself *)
+Lemma tok_of_spec c s name tok :
+  tok_of c s name = Halt tok ->
+  valid_name name = true /\
+  ((exists i, (i < length (split_dot name) - 1)%nat /\ tok = suffix_name name i /\ live hash c s tok = true /\
+      forall j, (j < i)%nat -> live hash c s (suffix_name name j) = false) \/
+   (tok = name /\ forall j, (j < length (split_dot name) - 1)%nat -> live hash c s (suffix_name name j) = false)).
+Proof.
+  unfold token_id_from_name. destruct (valid_name name); [|disc]. cbv zeta. intros H. injection H as <-.
+  split; [reflexivity|].
+  pose proof (head_filter_lookup (fun n => live hash c s n = true)
+                (map (fun i => join_dot (drop i (split_dot name))) (seq 0 (length (split_dot name) - 1)))) as Hh.
+  destruct (head (filter (fun n => live hash c s n = true) _)) as [t|].
+  - left. destruct Hh as [i (Hi & Hl & Hlt)]. rewrite map_fmap, list_lookup_fmap in Hi.
+    destruct (seq 0 (length (split_dot name) - 1) !! i) as [i'|] eqn:Es; [|discriminate Hi].
+    apply lookup_seq in Es as [-> Hi']. simpl in Hi. injection Hi as <-.
+    exists i. split; [exact Hi'|]. split; [reflexivity|]. split; [exact Hl|].
+    intros j Hj. destruct (live hash c s (suffix_name name j)) eqn:El; [|reflexivity].
+    exfalso. apply (Hlt j (suffix_name name j)); [exact Hj| |exact El].
+    rewrite map_fmap, list_lookup_fmap, lookup_seq_lt by lia. reflexivity.
+  - right. split; [reflexivity|]. intros j Hj.
+    destruct (live hash c s (suffix_name name j)) eqn:El; [|reflexivity].
+    exfalso. apply (Hh (suffix_name name j)); [|exact El].
+    rewrite map_fmap. apply elem_of_list_fmap. exists j. split; [reflexivity|]. apply elem_of_seq. lia.
+Qed.
+
+(** a successful record mutation of [name] touches only keys under its token *)
+Lemma mutation_location c s o s' v ns name :
+  rec_inv s -> nexec c s o = Halt (s', v, ns) ->
+  (exists typ data, o = AddRecord name typ data) \/ (exists typ id data, o = SetRecord name typ id data) \/
+  (exists typ, o = DeleteRecords name typ) ->
+  exists tok, tok_of c s name = Halt tok /\
+    forall tk nk tb i, tk <> hash tok -> records s' !! (tk, nk, tb, i) = records s !! (tk, nk, tb, i).
+Proof.
+  intros Hinv H [(typ & data & ->)|[(typ & id & data & ->)|(typ & ->)]].
+  - apply add_record_spec in H as (tok & tb & Etok & _ & _ & _ & _ & _ & _ & _ & Hfr & _); [|exact Hinv].
+    exists tok. split; [exact Etok|]. intros tk nk tb' i Hne. apply Hfr; [congruence|]. unfold soa_key. congruence.
+  - apply set_record_spec in H as (tok & tb & Etok & _ & _ & _ & _ & _ & _ & _ & Hfr & _); [|exact Hinv].
+    exists tok. split; [exact Etok|]. intros tk nk tb' i Hne. apply Hfr; [congruence|]. unfold soa_key. congruence.
+  - apply delete_records_spec in H as (tok & tb & Etok & _ & _ & _ & _ & _ & Hfr & _); [|exact Hinv].
+    exists tok. split; [exact Etok|]. intros tk nk tb' i Hne. apply Hfr; [congruence|]. unfold soa_key. congruence.
+Qed.
+
+(** * 10. Conflict with records held by the parent token *)
+Lemma register_conflict c s name owner email a b d e nk tb i r :
+  records s !! (hash (suffix_name name 1), nk, tb, i) = Some r -> proper_suffix name (r_name r) = true ->
+  nexec c s (Register name owner email a b d e) = Fault.
+Proof.
+  intros Hr Hp. destruct (nexec c s (Register name owner email a b d e)) as [[[s' v] ns]|] eqn:H; [|reflexivity].
+  exfalso. unfold NNS.nexec in H. cbv zeta in H. inv1 H. inv1 H. inv1 H. inv1 H. inv1 H. inv1 H.
+  match goal with E : negb (parent_conflict _ _ _ _) = true |- _ => apply negb_true_iff, not_true_iff_false in E; apply E end.
+  unfold parent_conflict. apply existsb_exists. exists r. split; [|exact Hp].
+  apply elem_of_list_In. unfold token_records. apply elem_of_list_omap.
+  exists ((hash (suffix_name name 1), nk, tb, i), r). split; [apply elem_of_map_to_list; exact Hr|].
+  unfold suffix_name. rewrite bytes_eqb_refl. reflexivity.
+Qed.
+
+(** * 11. Expiry *)
+Lemma join_split sep s : join_with sep (split_on sep s) = s.
+Proof.
+  induction s as [|ch s IH]; [reflexivity|].
+  simpl. destruct (N.eqb_spec ch sep) as [->|Hne].
+  - simpl. destruct (split_on sep s) as [|f fs] eqn:Es; [destruct s; simpl in Es; [discriminate Es|]|].
+    + destruct (n =? sep)%N; [discriminate Es|]. destruct (split_on sep s); discriminate Es.
+    + rewrite IH. reflexivity.
+  - destruct (split_on sep s) as [|f fs] eqn:Es.
+    + exfalso. destruct s; simpl in Es; [discriminate Es|]. destruct (n =? sep)%N; [discriminate Es|].
+      destruct (split_on sep s); discriminate Es.
+    + simpl in IH |- *. destruct fs as [|g gs]; [rewrite IH; reflexivity|]. simpl. rewrite <- IH. reflexivity.
+Qed.
+
+Lemma split_on_length sep s : (1 <= length (split_on sep s))%nat.
+Proof.
+  induction s as [|ch s IH]; [simpl; lia|]. simpl. destruct (ch =? sep)%N; [simpl; lia|].
+  destruct (split_on sep s); simpl in *; lia.
+Qed.
+
+(** the expiry walk with "split on its own": the token and every enclosing
+    name (the TLD included) are stored and unexpired *)
+Lemma get_frag_ns_nil_iff c s tok :
+  (exists nst, get_frag_ns hash c s tok [] = Halt nst) <-> parent_expired hash c s 0 (split_dot tok) = false.
+Proof.
+  assert (Hpe : parent_expired hash c s 0 (split_dot tok) =
+                negb (live hash c s tok) || parent_expired hash c s 1 (split_dot tok)).
+  { unfold parent_expired. rewrite Nat.sub_0_r.
+    pose proof (split_on_length DOT tok) as Hl. unfold split_dot.
+    destruct (length (split_on DOT tok)) as [|n] eqn:El; [lia|].
+    replace (S n - 1)%nat with n by lia. cbn [seq existsb drop]. unfold join_dot. rewrite drop_0, join_split. reflexivity. }
+  rewrite Hpe. unfold get_frag_ns, get_ns_with_key, live, get_ns. split.
+  - intros [nst H]. destruct (names s !! hash tok) as [ns0|]; [|discriminate H].
+    destruct (now c >=? ns_exp ns0) eqn:Ee; [discriminate H|]. cbn [obind] in H.
+    destruct (parent_expired hash c s 1 (split_dot tok)); [discriminate H|].
+    replace (now c <? ns_exp ns0) with true by lia. reflexivity.
+  - intros H. destruct (names s !! hash tok) as [ns0|]; [|discriminate H].
+    destruct (parent_expired hash c s 1 (split_dot tok)); [rewrite orb_true_r in H; discriminate H|].
+    rewrite orb_false_r in H. apply negb_false_iff in H.
+    replace (now c >=? ns_exp ns0) with false by lia. cbn [obind]. eauto.
+Qed.
+
+Lemma readers_fault_expired c s name typ tok :
+  tok_of c s name = Halt tok -> parent_expired hash c s 0 (split_dot tok) = true ->
+  nexec c s (GetRecords name typ) = Fault /\ nexec c s (GetAllRecords name) = Fault /\
+  (N.eqb (List.last name 0%N) DOT = false -> nexec c s (Resolve name typ) = Fault).
+Proof.
+  intros Etok Hpe.
+  assert (Hf : get_frag_ns hash c s tok [] = Fault).
+  { destruct (get_frag_ns hash c s tok []) as [nst|] eqn:E; [|reflexivity].
+    assert (parent_expired hash c s 0 (split_dot tok) = false) by (apply get_frag_ns_nil_iff; eauto). congruence. }
+  split; [|split].
+  - unfold NNS.nexec. cbv zeta. destruct (negb (length (split_dot name) =? 1)%nat); [|reflexivity].
+    cbn [oassert obind]. rewrite Etok. cbn [obind]. rewrite Hf. reflexivity.
+  - unfold NNS.nexec, get_all_records. cbv zeta. destruct (negb (length (split_dot name) =? 1)%nat); [|reflexivity].
+    cbn [oassert obind]. rewrite Etok. cbn [obind]. rewrite Hf. reflexivity.
+  - intros Hdot. unfold NNS.nexec. destruct (negb (length (split_dot name) =? 1)%nat); [|reflexivity].
+    cbn [oassert obind]. cbn [resolve]. destruct (length name =? 0)%nat; [reflexivity|]. rewrite Hdot.
+    unfold get_all_records. rewrite Etok. cbn [obind]. rewrite Hf. reflexivity.
+Qed.
+
+(** * 12. Resolve *)
+(** the records of one type among all entries of a name *)
+Definition typ_recs (s : nstate) (tk nk : bytes) (typ : Z) : list bytes :=
+  if typ =? 1 then spec_recs s tk nk 1 else if typ =? 5 then spec_recs s tk nk 5
+  else if typ =? 6 then spec_recs s tk nk 6 else if typ =? 16 then spec_recs s tk nk 16
+  else if typ =? 28 then spec_recs s tk nk 28 else [].
+
+Lemma block_filter s tk nk tb typ :
+  rec_inv s ->
+  (fun e : ent => r_data (snd e)) <$>
+    filter (fun e : ent => (r_type (snd e) =? typ) = true) (spec_ents (records s) tk nk tb) =
+  if typ =? Z.of_N tb then spec_recs s tk nk tb else [].
+Proof.
+  intros Hinv. destruct (Z.eqb_spec typ (Z.of_N tb)) as [->|Hne].
+  - rewrite filter_all; [unfold spec_recs; reflexivity|]. intros e He.
+    destruct (elem_of_spec_ents_wf _ _ _ _ _ Hinv He) as [(_ & Ht & _) _]. apply Z.eqb_eq. exact Ht.
+  - rewrite filter_none; [reflexivity|]. intros e He.
+    destruct (elem_of_spec_ents_wf _ _ _ _ _ Hinv He) as [(_ & Ht & _) _]. rewrite Ht. intros Heq. apply Z.eqb_eq in Heq. lia.
+Qed.
+
+Lemma sel5 {A} (typ : Z) (l1 l5 l6 l16 l28 : list A) :
+  (if typ =? 1 then l1 else []) ++ (if typ =? 5 then l5 else []) ++ (if typ =? 6 then l6 else []) ++
+  (if typ =? 16 then l16 else []) ++ (if typ =? 28 then l28 else []) =
+  if typ =? 1 then l1 else if typ =? 5 then l5 else if typ =? 6 then l6 else if typ =? 16 then l16
+  else if typ =? 28 then l28 else [].
+Proof.
+  destruct (Z.eqb_spec typ 1) as [E1|E1], (Z.eqb_spec typ 5) as [E5|E5], (Z.eqb_spec typ 6) as [E6|E6],
+    (Z.eqb_spec typ 16) as [E16|E16], (Z.eqb_spec typ 28) as [E28|E28]; try (exfalso; lia);
+    cbn [app]; rewrite ?app_nil_r; reflexivity.
+Qed.
+
+Lemma all_ents_filter s tk nk typ :
+  rec_inv s ->
+  (fun e : ent => r_data (snd e)) <$>
+    filter (fun e : ent => (r_type (snd e) =? typ) = true) (all_ents (records s) tk nk) = typ_recs s tk nk typ.
+Proof.
+  intros Hinv. unfold all_ents. rewrite !filter_app, !fmap_app.
+  rewrite !(block_filter s tk nk _ typ Hinv). unfold typ_recs.
+  change (Z.of_N 1) with 1. change (Z.of_N 5) with 5. change (Z.of_N 6) with 6.
+  change (Z.of_N 16) with 16. change (Z.of_N 28) with 28.
+  apply sel5.
+Qed.
+
+(** [resolve] strips one trailing dot *)
+Definition strip_dot (name : bytes) : bytes :=
+  if N.eqb (List.last name 0%N) DOT then removelast name else name.
+
+(** what [resolve] sees at one visited name: its records of the requested
+    type and its CNAME target ([[]] if none) *)
+Definition rnode (c : nctx) (s : nstate) (name : bytes) (typ : Z) : outcome (list bytes * bytes) :=
+  if (length name =? 0)%nat then Fault else
+  let n := strip_dot name in
+  tok <-! tok_of c s n;
+  _ <-! get_frag_ns hash c s tok [];
+  Halt (typ_recs s (hash tok) (hash n) typ, List.last (spec_recs s (hash tok) (hash n) 5) []).
+
+(** the specification of [resolve] with an explicit budget of visited names *)
+Fixpoint resolve_spec (c : nctx) (s : nstate) (budget : nat) (name : bytes) (typ : Z) : outcome (list bytes) :=
+  match budget with
+  | O => Fault
+  | S b =>
+      hl <-! rnode c s name typ;
+      if (length (snd hl) =? 0)%nat || (typ =? T_CNAME) then Halt (fst hl)
+      else rest <-! resolve_spec c s b (snd hl) typ; Halt (fst hl ++ rest)
+  end.
+
+Lemma resolve_eq c s fuel res name typ :
+  rec_inv s ->
+  resolve hash valid_name c s fuel res name typ = (r <-! resolve_spec c s fuel name typ; Halt (res ++ r)).
+Proof.
+  intros Hinv. revert res name. induction fuel as [|fuel IH]; intros res name; [reflexivity|].
+  cbn [resolve resolve_spec]. unfold rnode. destruct (length name =? 0)%nat; [reflexivity|].
+  cbv zeta. change (if (List.last name 0 =? DOT)%N then removelast name else name) with (strip_dot name).
+  generalize (strip_dot name). intros n.
+  unfold get_all_records.
+  destruct (tok_of c s n) as [tok|]; [|reflexivity]. cbn [obind].
+  destruct (get_frag_ns hash c s tok []) as [nst|]; [|reflexivity]. cbn [obind fst snd].
+  rewrite (rec_entries_spec _ _ _ Hinv). rewrite !map_fmap.
+ Set Printing All. Show. 
+Abort.
 End Records.
